@@ -42,14 +42,19 @@ def case_s2(ctx, rng, wd, sparse):
     cell = gc.make_cell(rng, d, cellkind, lmin=(12 if sparse else 3.5), lmax=(25 if sparse else 8))
     types = gc.make_types(rng, N, K)
     Kr = len(np.unique(types))
-    snaps = gc.snapshots_from([gc.snapshot_from(cell, rng.random((N, d)), types, 10 * t) for t in range(frames)])
+    # sheared trajectories (equal edge lengths, an own tilt per frame): every frame has its own cell matrix
+    shear = cellkind == "tri" and frames > 1 and rng.random() < 0.5
+    cells = [cell] + [gc.retilt(rng, cell) if shear else cell for _ in range(frames - 1)]
+    snaps = gc.snapshots_from([gc.snapshot_from(cells[t], rng.random((N, d)), types, 10 * t) for t in range(frames)])
+    if shear:
+        cellkind = "tri/sheared"
     ppp = gc.random_mask(rng, d)
     sig = rng.uniform(0.03, 0.08, size=(Kr, Kr)) if sparse else rng.uniform(0.08, 0.3, size=(Kr, Kr))
     sig = 0.5 * (sig + sig.T)
-    ra = geom.agreement_radius(cell["H"], ppp)
+    ra = min(geom.agreement_radius(c["H"], ppp) for c in cells)
     Lmin = float(np.diag(cell["H"]).min())
     rmax_target = float(rng.uniform(0.25, 0.6) * Lmin)
-    if np.isfinite(ra) and cellkind != "ortho":
+    if np.isfinite(ra) and not cellkind.startswith("ortho"):
         rmax_target = min(rmax_target, 0.9 * ra)
     ndelta = int(rng.integers(15, 80))
     rdelta = rmax_target / ndelta
@@ -59,7 +64,7 @@ def case_s2(ctx, rng, wd, sparse):
     rmax = bins.max()
     savegr = bool(rng.random() < 0.3)
     out = "s2.npy" if savegr or rng.random() < 0.2 else ""
-    info = lambda: {"d": d, "N": N, "K": Kr, "cell": cellkind, "H": cell["H"], "ppp": ppp, "sigmas": sig, "rdelta": rdelta, "ndelta": ndelta,  # noqa: E731
+    info = lambda: {"d": d, "N": N, "K": Kr, "cell": cellkind, "H": [c["H"] for c in cells], "ppp": ppp, "sigmas": sig, "rdelta": rdelta, "ndelta": ndelta,  # noqa: E731
                     "sparse": sparse, "types": types, "positions": [s.positions for s in snaps.snapshots] if N <= 12 else "omitted"}
     key = "S2.particle_s2" + ("/sparse" if sparse else "")
     ok, res = ctx.call(key, lambda: S2(snaps, sig.copy(), ppp, rdelta, ndelta).particle_s2(savegr=savegr, outputfile=out), data=info)
@@ -76,7 +81,7 @@ def case_s2(ctx, rng, wd, sparse):
         return
     norms = (2 * np.pi * bins * rho) if d == 2 else (4 * np.pi * bins ** 2 * rho)
     for t, s in enumerate(snaps.snapshots):
-        _v, dist, _ = geom.pair_table(s.positions, cell["H"], ppp)
+        _v, dist, _ = geom.pair_table(s.positions, cells[t]["H"], ppp)
         if np.any(np.abs(dist[~np.eye(N, dtype=bool)] - rmax) < 1e-9):
             ctx.skip("s2")
             continue
